@@ -108,3 +108,33 @@ func cloneOperation(o *types.Operation) *types.Operation {
 	c := *o
 	return &c
 }
+
+// RealPollToEnd runs the node's real Poll() loop (its own recipient filter, its own order of calls) in a
+// goroutine until the node's saved offset has reached boardLen, then cancels it. It reports whether the
+// end was reached within maxWait (pacing only; callers treat a miss as inconclusive).
+func (n *Node) RealPollToEnd(boardLen int, maxWait time.Duration) (bool, error) {
+	errc := make(chan error, 1)
+	go func() { errc <- n.Svc.Poll() }()
+	deadline := time.Now().Add(maxWait)
+	reached := false
+	for time.Now().Before(deadline) {
+		if off, err := n.State.LoadOffset(); err == nil && int(off) >= boardLen {
+			reached = true
+			break
+		}
+		select {
+		case err := <-errc:
+			return false, err
+		case <-time.After(20 * time.Millisecond):
+		}
+	}
+	if n.Cancel != nil {
+		n.Cancel()
+	}
+	select {
+	case err := <-errc:
+		return reached, err
+	case <-time.After(10 * time.Second):
+		return reached, fmt.Errorf("Poll() did not return after its context was cancelled")
+	}
+}
